@@ -12,13 +12,13 @@ type Expr interface {
 }
 
 type (
-	EIdent  struct{ Name string }
-	EInt    struct{ Val string }
-	EStr    struct{ Val string } // unquoted value
-	EBool   struct{ Val bool }
-	ENil    struct{}
-	EHash   struct{ Name string } // #i, #visited ...
-	EUnary  struct {
+	EIdent struct{ Name string }
+	EInt   struct{ Val string }
+	EStr   struct{ Val string } // unquoted value
+	EBool  struct{ Val bool }
+	ENil   struct{}
+	EHash  struct{ Name string } // #i, #visited ...
+	EUnary struct {
 		Op string
 		X  Expr
 	}
@@ -76,6 +76,7 @@ type TypeExpr struct {
 	Name string
 	Elem *TypeExpr
 	Key  *TypeExpr
+	Args []*TypeExpr // explicit type arguments
 }
 
 func (t *TypeExpr) String() string {
@@ -190,6 +191,7 @@ type GhostFunc struct {
 	Result  *TypeExpr
 	Body    Expr // nil => uninterpreted
 	Rec     bool
+	Fuel    bool // recursive, encoded as an uninterpreted function with a fuel-limited unfolding axiom
 	Axioms  []*Clause
 	Src     string
 	PkgPath string
@@ -207,32 +209,32 @@ type Lemma struct {
 }
 
 type FuncContract struct {
-	PkgPath   string // package in which the contract was written
-	Header    string // Go func header text ("func (t *T) m(a int) (r bool)") or closure spec
-	Closure   string // for closures: "<outer func key>#<role>"
-	Key       string // resolved function key
-	Trusted   bool
-	Pure      bool // no side effects; callers may use result as function of args (+heap epoch)
-	Inline    bool // pure & loop free: body compiled into a define-fun
-	Props     []string
-	Requires  []*Clause
-	Ensures   []*Clause
-	Modifies  []Expr
-	ModAll    bool
-	HasMod    bool
-	Loops     map[int]*LoopSpec
-	Sites     []*SiteAction
-	Ghosts    []*GhostVar
-	Safety    map[string]bool // nil, index, nilmap, div, typeassert, overflow
-	NoVerify  bool            // contract only used by callers (body not checked): counts as assumed
-	ResNames  []string        // names for results (from header)
-	Opts      map[string]string
-	Uses      []string // lemmas assumed at function entry
-	GoFrames    bool // generate goroutine frame obligations for every go statement of the function
-	ClosedWorld bool // every caller in the repository must itself be under a verified contract
-	Literals  [][2]string // structural obligations on composite literals: type, canonical text
-	FieldOf   string   // funcfield contracts: struct type name
-	FieldName string   //                      field name
-	SrcFile   string
-	HeaderPos string
+	PkgPath     string // package in which the contract was written
+	Header      string // Go func header text ("func (t *T) m(a int) (r bool)") or closure spec
+	Closure     string // for closures: "<outer func key>#<role>"
+	Key         string // resolved function key
+	Trusted     bool
+	Pure        bool // no side effects; callers may use result as function of args (+heap epoch)
+	Inline      bool // pure & loop free: body compiled into a define-fun
+	Props       []string
+	Requires    []*Clause
+	Ensures     []*Clause
+	Modifies    []Expr
+	ModAll      bool
+	HasMod      bool
+	Loops       map[int]*LoopSpec
+	Sites       []*SiteAction
+	Ghosts      []*GhostVar
+	Safety      map[string]bool // nil, index, nilmap, div, typeassert, overflow
+	NoVerify    bool            // contract only used by callers (body not checked): counts as assumed
+	ResNames    []string        // names for results (from header)
+	Opts        map[string]string
+	Uses        []string    // lemmas assumed at function entry
+	GoFrames    bool        // generate goroutine frame obligations for every go statement of the function
+	ClosedWorld bool        // every caller in the repository must itself be under a verified contract
+	Literals    [][2]string // structural obligations on composite literals: type, canonical text
+	FieldOf     string      // funcfield contracts: struct type name
+	FieldName   string      //                      field name
+	SrcFile     string
+	HeaderPos   string
 }
